@@ -49,6 +49,48 @@ CLAIMED["C14"] = dict(
    technique="Lean 4 kernel-checked table facts + list-map lemma; differential correspondence; end-to-end oracle",
    ref="4 C14")
 
+CLAIMED["C02"] = dict(
+   text="Fork-join model of kalign's OpenMP structure with declared footprints: generic determinacy (every linearisation of a safe program = its serial elision) and order theorems; "
+        "instantiated for the merge tree (any tree with distinct labels: concurrent merges lie in disjoint subtrees), the Hirschberg halves (f vs b arrays), the k-means round and "
+        "recursion (BROADCAST_MASK same-constant stores) and the distance matrix; corollaries: threads irrelevant, merge after children, meetup after both halves. The pragma text is "
+        "regenerated on every run (structured skeleton + every raw `#pragma omp` line + thread-count use sites + writable globals) and pinned by `decide`; the map from directive "
+        "lists to program shapes is computed. Tie/search: byte comparison against the no-OpenMP build for n_threads 1..64 with seeded schedule jitter at the hooks, trace "
+        "validation of hook event logs as linearisations (children complete before a merge, halves finished before meetup, overlapping merges disjoint), TSan pass (thorough).",
+   note="A-omp: OpenMP runtime / compiler / memory model trusted; atoms assumed to be functions of their declared footprints (validated dynamically). A theorem cannot exhibit a racy "
+        "execution; the schedule search tries to.",
+   technique="Lean 4 fork-join determinacy proof over footprints + regenerated pragma skeleton pinned by `decide`; schedule-perturbation search and trace validation",
+   ref="4 C02")
+CLAIMED["C04"] = dict(
+   text="Lean model of the readers on bytes (line splitting, format sniffing, read_fasta/clu/msf, merge) bit-for-bit tied to the C readers by correspondence (incl. a malformed "
+        "stream); theorems: scanner keeps letters / counts punctuation as gaps; reading FASTA or Clustal presentations (any widths, blank lines, gap glyphs, padding, junk lines) "
+        "yields the same names and residues; formats agree; letter histogram and detected kind depend on residues only. Oracle: real runs on re-presentations (gap densities to 50 "
+        "per residue, widths, Clustal/MSF renderings, 2..5 files) vs the plain FASTA run.",
+   note="MSF header phase for arbitrary third-party headers is an explicit hypothesis (`read_msf_presentation_partial`); proved for files kalign writes. Known finding C04-split-class.",
+   technique="Lean 4 proofs over a byte-level reader model; differential correspondence; presentation oracle",
+   ref="4 C04")
+CLAIMED["C06"] = dict(
+   text="Lean theorems fasta/clu/msf_roundtrip(+_input), sniff_written_*, roundtrip_any, cross_format: for every well-formed alignment (decidable AlnWF: names over [A-Za-z0-9_.|-], "
+        "1..200 bytes, rows of equal length >= 1, every row has a residue) reading what the writer produced returns exactly names, residues and gap vectors in order, and the "
+        "sniffer selects the right reader. Tie: bit-exact correspondence of writers and readers on generated alignments; oracle read(write(A)) on the real code for all formats.",
+   note="fprintf/getline/snprintf by specification; side conditions on version/basename/date (FileOK) are decidable and shown satisfiable.",
+   technique="Lean 4 proofs (sorted line-buffer layout lemma, 60-column chunking); differential correspondence; round-trip oracle",
+   ref="4 C06")
+CLAIMED["C15"] = dict(
+   text="Lean theorems fasta_shape, blocks_shape_clu/msf, block_columns, msf_len, msf_checksums, msf_type, gcg_spec about the writer model (tied bit-for-bit to the C writers); "
+        "oracle: independent Python parser of the three formats on synthetic alignments through the real writers and on real kalign_run outputs (wrapping at 60, block structure, "
+        "MSF length / per-row GCG checksums / total / type).",
+   note="strftime date masked; independent parser trusted as oracle.",
+   technique="Lean 4 proofs over the writer model; differential correspondence; independent-parser oracle",
+   ref="4 C15")
+CLAIMED["C16"] = dict(
+   text="Lean state machine of the API (handles, read/run/write/compare/free/kalign, library globals = OpenMP thread count + mask flag, allocation ledger): globals are "
+        "overwritten before use, every op's output in any history equals its output in a fresh process on the same argument objects (induction over op lists), ledger balanced "
+        "(partial: histories without failing reads; the failing-read leak found this way is fixed in /repo). Frame obligations (writable globals, thread-count use sites) regenerated "
+        "and pinned. Search: random API histories with several live handles in one sanitizer-instrumented process vs per-object replays in fresh processes; LeakSanitizer at exit.",
+   note="Heap-reuse effects are what the functional model cannot exhibit; the history search looks for them. OpenMP pool excluded via LSan suppressions.",
+   technique="Lean 4 induction over API histories + regenerated frame facts; differential history replay with LeakSanitizer",
+   ref="4 C16")
+
 PENDING = {}
 
 def main():
